@@ -741,3 +741,139 @@ Proof.
 Qed.
 End ModelZero.
 
+
+(* ================================================================================================================ *)
+(* the key matrix only needs to be well formed where it is read: q < cin*dnum, c < cols_out*msize
+   (Gadget.pmat_of_flat returns [] outside the dumped range): wf_pmat_in / pmat_z of Model/GadgetSpec.v *)
+Section FlatIn.
+Lemma flat_in (x y X Y : nat) : (x < X)%nat -> (y < Y)%nat -> (x * Y + y < X * Y)%nat.
+Proof. intros. nia. Qed.
+End FlatIn.
+
+Section InRangeSpec.
+Variables (n cin cols_out msize a_size dsize dnum : nat) (clamp : bool).
+Variable A : nat -> nat -> list Z.
+Variables K K' : pmat.
+Hypothesis HKK : forall q c, (q < dnum * cin)%nat -> (c < msize * cols_out)%nat -> K q c = K' q c.
+
+Lemma gp_spec_ext co j : (co < cols_out)%nat ->
+  gp_spec n cin cols_out msize a_size dsize dnum clamp A K co j = gp_spec n cin cols_out msize a_size dsize dnum clamp A K' co j.
+Proof.
+  intros Hc. unfold gp_spec. apply psumf_ext; intros di Hdi. unfold gp_term.
+  destruct (Nat.ltb_spec j (sz_r msize dsize di)); cbn [andb]; [|reflexivity].
+  destruct (Nat.ltb_spec (j + di) msize); [|reflexivity].
+  unfold gp_rows. apply psumf_ext; intros row Hrow. apply psumf_ext; intros ci Hci. f_equal.
+  apply HKK; apply flat_in; try assumption. rewrite rows_used_eq in Hrow. lia.
+Qed.
+
+End InRangeSpec.
+
+Section InRange.
+Variables (P b : Z) (n cin cols_out msize a_size dsize dnum : nat) (clamp : bool).
+Variable A : nat -> nat -> list Z.
+Variables K K' : pmat.
+Variable Sk : nat -> list Z.
+Hypothesis HKK : forall q c, (q < dnum * cin)%nat -> (c < msize * cols_out)%nat -> K q c = K' q c.
+
+Lemma kwin_ext q lo len : (q < dnum * cin)%nat -> (lo + len <= msize)%nat ->
+  kwin P b n cols_out K Sk q lo len = kwin P b n cols_out K' Sk q lo len.
+Proof.
+  intros Hq Hl. unfold kwin. apply psumf_ext; intros co Hc. f_equal.
+  apply psumf_ext; intros i Hi. f_equal. apply HKK; [exact Hq|]. apply flat_in; [lia|exact Hc].
+Qed.
+
+Lemma kphase_ext q : (q < dnum * cin)%nat -> kphase P b n cols_out msize K Sk q = kphase P b n cols_out msize K' Sk q.
+Proof. intros Hq. apply kwin_ext; [exact Hq|lia]. Qed.
+
+Lemma khigh_ext q di : (q < dnum * cin)%nat ->
+  khigh P b n cols_out msize dsize K Sk q di = khigh P b n cols_out msize dsize K' Sk q di.
+Proof.
+  intros Hq. unfold khigh. set (lo := (di + win_len msize dsize di)%nat).
+  destruct (Nat.le_gt_cases lo msize) as [G|G]; [apply kwin_ext; [exact Hq|lia]|].
+  replace (msize - lo)%nat with 0%nat by lia. reflexivity.
+Qed.
+
+Lemma klow_int_ext q di : (q < dnum * cin)%nat ->
+  klow_int b n cols_out msize K Sk q di = klow_int b n cols_out msize K' Sk q di.
+Proof.
+  intros Hq. unfold klow_int. apply psumf_ext; intros co Hc. f_equal.
+  apply psumf_ext; intros j Hj. f_equal. apply HKK; [exact Hq|]. apply flat_in; [lia|exact Hc].
+Qed.
+
+Lemma gadget_trunc_ext :
+  gadget_trunc P b n cin cols_out msize dsize dnum A K Sk = gadget_trunc P b n cin cols_out msize dsize dnum A K' Sk.
+Proof.
+  unfold gadget_trunc. apply psumf_ext; intros di _. apply psumf_ext; intros row Hrow. apply psumf_ext; intros ci Hci.
+  do 2 f_equal. apply khigh_ext. apply flat_in; assumption.
+Qed.
+
+Lemma gadget_err_ext e :
+  gadget_err P b n cin cols_out msize dsize dnum A K Sk e = gadget_err P b n cin cols_out msize dsize dnum A K' Sk e.
+Proof. unfold gadget_err. rewrite gadget_trunc_ext. reflexivity. Qed.
+
+Lemma gadget_int_ext I :
+  gadget_int b n cin cols_out msize dsize dnum A K Sk I = gadget_int b n cin cols_out msize dsize dnum A K' Sk I.
+Proof.
+  unfold gadget_int. f_equal. unfold gadget_int_low.
+  apply psumf_ext; intros di _. apply psumf_ext; intros row Hrow. apply psumf_ext; intros ci Hci.
+  f_equal. apply klow_int_ext. apply flat_in; assumption.
+Qed.
+End InRange.
+
+Section PhaseRowsIn.
+Variables (P b : Z) (n cin cols_out msize a_size dsize dnum : nat) (clamp : bool).
+Variable A : nat -> nat -> list Z.
+Variable K : pmat.
+Variable Sk : nat -> list Z.
+Variables (src : nat -> list Z) (e I : nat -> nat -> list Z).
+Hypothesis Hd : (1 <= dsize)%nat.
+Hypothesis HA : forall ci l, length (A ci l) = n.
+Hypothesis Hz : forall ci l, (a_size <= l)%nat -> A ci l = pzero n.
+Hypothesis HK : wf_pmat_in n (dnum * cin) (msize * cols_out) K.
+Hypothesis HS : forall co, length (Sk co) = n.
+Hypothesis Hsrc : forall ci, length (src ci) = n.
+Hypothesis He : forall row ci, length (e row ci) = n.
+Hypothesis HI : forall row ci, length (I row ci) = n.
+Hypothesis Hb : 0 <= b.
+Hypothesis HP : Z.of_nat msize * b <= P.
+Hypothesis HP2 : Z.of_nat dnum * Z.of_nat dsize * b <= P.
+Hypothesis key_row : key_rows_ok P b n cin cols_out msize dsize dnum K Sk src e I.
+
+Let Kz := pmat_z n (dnum * cin) (msize * cols_out) K.
+
+Lemma Kz_eq q c : (q < dnum * cin)%nat -> (c < msize * cols_out)%nat -> K q c = Kz q c.
+Proof.
+  intros Hq Hc. unfold Kz, pmat_z.
+  destruct (Nat.ltb_spec q (dnum * cin)); destruct (Nat.ltb_spec c (msize * cols_out)); cbn [andb]; try lia. reflexivity.
+Qed.
+
+Lemma Kz_wf q c : length (Kz q c) = n.
+Proof.
+  unfold Kz, pmat_z.
+  destruct (Nat.ltb_spec q (dnum * cin)); destruct (Nat.ltb_spec c (msize * cols_out)); cbn [andb]; try apply pzero_length.
+  apply HK; assumption.
+Qed.
+
+(* gadget_phase_rows with a key matrix that is well formed only where it is read *)
+Theorem gadget_phase_rows_in :
+  phase_f P b n cols_out msize (gp_spec n cin cols_out msize a_size dsize dnum clamp A K) Sk
+  = padd (padd (psumf n (fun ci => pmul (pval_used P b n a_size dsize dnum A ci) (src ci)) cin)
+               (gadget_err P b n cin cols_out msize dsize dnum A K Sk e))
+         (pscale (2 ^ P) (gadget_int b n cin cols_out msize dsize dnum A K Sk I)).
+Proof.
+  assert (Ee : gadget_err P b n cin cols_out msize dsize dnum A K Sk e = gadget_err P b n cin cols_out msize dsize dnum A Kz Sk e)
+    by (apply gadget_err_ext; exact Kz_eq).
+  assert (Ei : gadget_int b n cin cols_out msize dsize dnum A K Sk I = gadget_int b n cin cols_out msize dsize dnum A Kz Sk I)
+    by (apply gadget_int_ext; exact Kz_eq).
+  rewrite Ee, Ei.
+  transitivity (phase_f P b n cols_out msize (gp_spec n cin cols_out msize a_size dsize dnum clamp A Kz) Sk).
+  - unfold phase_f, pval. apply psumf_ext; intros co Hc. f_equal. apply psumf_ext; intros j _. f_equal.
+    apply gp_spec_ext; [exact Kz_eq|exact Hc].
+  - apply gadget_phase_rows; try assumption; [exact Kz_wf|].
+    intros row ci Hrow Hci.
+    assert (Ek : kphase P b n cols_out msize K Sk (row * cin + ci)%nat = kphase P b n cols_out msize Kz Sk (row * cin + ci)%nat).
+    { apply kphase_ext with (dnum := dnum) (cin := cin); first [exact Kz_eq | apply flat_in; assumption | exact A]. }
+    rewrite <- Ek. apply key_row; assumption.
+Qed.
+End PhaseRowsIn.
+
